@@ -40,7 +40,7 @@ func contains(list []string, s string) bool {
 
 // conservationAsserts states rules (i)-(iv) of DESIGN.md section C03 for a
 // successful Parse of args over rawDefinition.
-func conservationAsserts(args, remaining []string, um int) {
+func conservationAsserts(args, remaining []string, um int, mode int) {
 	// (i) order-preserving sub-list: nothing invented, altered, reordered, duplicated
 	pos := -1
 	for _, r := range remaining {
@@ -75,6 +75,27 @@ func conservationAsserts(args, remaining []string, um int) {
 		if !strings.HasPrefix(t, "-") && t != "c" && t != "sub" && !prevDash {
 			must = append(must, t)
 			continue
+		}
+		// (iii-short) a single-dash first token (root level for certain) holding an
+		// unknown option stays in Pass and Warn mode: -name / a bundle with a letter
+		// other than b and s / -xREST with x other than b and s
+		if um != 0 && j == 0 && strings.HasPrefix(t, "-") && !strings.HasPrefix(t, "--") && t != "-" {
+			name := strings.SplitN(strings.TrimPrefix(t, "-"), "=", 2)[0]
+			if name != "" {
+				known := false
+				switch mode {
+				case 0:
+					known = vOr(name == "b", name == "s")
+				case 1:
+					known = vOr(vOr(vOr(name == "b", name == "s"), vOr(name == "bb", name == "bs")), vOr(name == "sb", name == "ss"))
+				case 2:
+					known = vOr(strings.HasPrefix(name, "b"), strings.HasPrefix(name, "s"))
+				}
+				if !known {
+					must = append(must, t)
+					continue
+				}
+			}
 		}
 		// (iii) unknown long options stay in Pass and Warn mode
 		if um != 0 && strings.HasPrefix(t, "--") && t != "--" && !prevDash {
@@ -129,7 +150,7 @@ func VerifC03_Raw() {
 		vReach("failed")
 		return
 	}
-	conservationAsserts(args, remaining, um)
+	conservationAsserts(args, remaining, um, mode)
 	vReach("parsed")
 }
 
@@ -138,12 +159,12 @@ func VerifC03_Raw() {
 func VerifC03_Constructed() {
 	mode := vInt("mode", 0, 2)
 	um := vInt("um", 1, 2)
-	shape := vInt("shape", 0, 10)
+	shape := vInt("shape", 0, 13)
 	p := positional("p", "c", "sub")
 	q := positional("q", "c", "sub")
 	vAssume(p != q)
 	opt, _, _ := rawDefinition(mode, um, false)
-	if shape >= 9 {
+	if shape == 9 || shape == 10 {
 		// require-order set on the command only
 		opt = New()
 		setMode(opt, mode)
@@ -181,12 +202,70 @@ func VerifC03_Constructed() {
 		args, want = []string{"--typo", "--b", "--typo", p}, []string{"--typo", "--typo", p}
 	case 8:
 		args, want = []string{"-", "-", p, p}, []string{"-", "-", p, p}
+	case 11:
+		// a bundle whose first letter takes the next token as its value and whose
+		// second letter is unknown: the bundle stays, the value does not
+		vAssume(mode == 1)
+		args, want = []string{"-sy", p, q}, []string{"-sy", q}
+	case 12:
+		vAssume(mode == 1)
+		args, want = []string{"-sy=1", p, q}, []string{"-sy=1", q}
+	case 13:
+		// the same with require-order: the bundle and everything behind the value
+		vAssume(mode == 1)
+		opt, _, _ = rawDefinition(mode, um, true)
+		args, want = []string{"-sy", p, q, "--b"}, []string{"-sy", q, "--b"}
 	}
 	vPhase("run")
 	remaining, err := opt.Parse(args)
 	vObserve("err", err)
 	vObserve("remaining", remaining)
 	vAssert("no-error", err == nil)
+	vAssert("remaining-exact", eqStrs(remaining, want))
+	vReach("parsed")
+}
+
+// Different unknown modes at the root and at the command (set after the
+// command was created, or on the command itself): whenever Parse succeeds the
+// unknown token is still in remaining, whichever level's mode decided.
+func VerifC03_MixedUnknownModes() {
+	mode := vInt("mode", 0, 2)
+	umRoot := vInt("umroot", 0, 2)
+	umCmd := vInt("umcmd", 0, 2)
+	late := vBool("late") // the root's mode is set after NewCommand (the command keeps the old one)
+	where := vInt("where", 0, 2)
+	p := positional("p", "c", "sub")
+	opt := New()
+	setMode(opt, mode)
+	if !late {
+		setUnknown(opt, umRoot)
+	}
+	opt.Bool("b", false)
+	c := opt.NewCommand("c", "")
+	c.Bool("x", false)
+	if late {
+		setUnknown(opt, umRoot)
+	} else {
+		setUnknown(c, umCmd)
+	}
+	var args, want []string
+	switch where {
+	case 0:
+		args, want = []string{"c", "--x", "--typo", p}, []string{"--typo", p}
+	case 1:
+		args, want = []string{"--typo", "c", "--x", p}, []string{"--typo", p}
+	case 2:
+		args, want = []string{"--b", "c", p, "--typo=1"}, []string{p, "--typo=1"}
+	}
+	vPhase("run")
+	remaining, err := opt.Parse(args)
+	vObserve("err", err != nil)
+	vObserve("remaining", remaining)
+	if err != nil {
+		vAssert("failed-parse-nil-remaining", remaining == nil)
+		vReach("failed")
+		return
+	}
 	vAssert("remaining-exact", eqStrs(remaining, want))
 	vReach("parsed")
 }
